@@ -58,6 +58,12 @@ def main(argv=None):
 
     jobs = a.jobs or getattr(prop, "JOBS", {}).get(a.tier, 1)
     problems = []
+    # replay files describe the current run only
+    rdir = os.path.join(os.environ.get("VMON_REPLAY_DIR") or os.path.join(core.HOME, "replay"), pid)
+    if os.path.isdir(rdir):
+        for fn in os.listdir(rdir):
+            if fn.endswith(".json"):
+                os.unlink(os.path.join(rdir, fn))
     if jobs <= 1:
         results = [core.run_shard(prop, a.tier, seed, 0, 1, a.limit, getattr(prop, "CASE_TIMEOUT", {}).get(a.tier, 120.0))]
     else:
